@@ -1583,6 +1583,11 @@ class TrajectoryStore:
         if not self.indexable or not self.index_stale:
             return
 
+        # An in-memory store has no index yet: it is created and filled when
+        # the store is saved to NetCDF files.
+        if not self.nc_linked:
+            return
+
         # Get the NetCDF4 groups for the base field set.
         gs = self._nc[BASE_FIELDSET_NAME].groups[BASE_FIELDSET_NAME]
 
